@@ -29,6 +29,7 @@ pub fn plan(quick: bool) -> Vec<Part> {
     v.push(Part::new("C19", "R1", 6, Space::singles(6, l6)));
     for k in BIG_K {
         v.push(Part::new("C19", "catalogue", k, Space { segs: vec![catalogue(k)] }));
+        v.push(Part::new("C19", "lifted", k, vcommon::families::lifted(k, !quick)));
     }
     // hand-built graphs: arbitrary node lists handed to BaseGraph::add (not the output of the crate's own compressors),
     // e.g. nodes longer than K that start or end with a palindromic k-mer
